@@ -761,6 +761,15 @@ func checkC09(w *World, r *Recorder) propInfo {
 	// folding, trimming or a different constant makes a "valid" set encode to
 	// bytes whose declared profile selects nothing, or something else
 	importRules(w, r, checkC07, "C09-I10", func(o *Oblig) bool { return o.Rule == "C07-P4" })
+	// I11: the embedding-aware reader refuses a repeated key (C15-H5/H6): the
+	// dispatcher's struct decoder lets the first occurrence of the profile key
+	// win, a reader that let the last one win would fill an extension profile's
+	// object with a profile its own encoding then dispatches elsewhere
+	if sf := w.encMapType("CBOR"); sf != nil {
+		sub := NewRecorder(r.Property)
+		c15DupKey(w, sub, sf)
+		remap(r, sub, map[string]string{"C15-H5": "C09-I11", "C15-H6": "C09-I11"})
+	}
 	r.Floor("C09-I1", 1)
 	r.Floor("C09-I2", 2)
 	r.Floor("C09-I3", 26)
